@@ -129,6 +129,21 @@ def run(tier):
     vs, _ = tlc.validate("GeomTrace", [{k: v for k, v in r.items() if k != "tag"} for r in (e, eb, f, fb)])
     _expect("bridge: two nodes' coordinate owners swapped", vs[0], vs[1], "C18_OwnPosition", results)
     _expect("forward map: one coefficient perturbed", vs[2], vs[3], "C18_BeadIsNormalisedAverage", results)
+    # ---- GraphOps (spec -> code): one expected key / one returned fragment corrupted ----------------
+    from .props import graphops
+    opq = lambda n, a=0, b=0, c=0: {"op": n, "a": a, "b": b, "c": c}
+    beh = {"ops": [opq("merge", 2), opq("merge", 2), opq("squash", 0, 2), opq("sort"), opq("annotate")],
+           "nodes": [{"key": 1, "fid": [0, 1], "el": "C", "ez": []}, {"key": 0, "fid": [0], "el": "O", "ez": []},
+                     {"key": 2, "fid": [1], "el": "O", "ez": []}],
+           "edges": [[0, 1, 1], [1, 2, 1]],
+           "out": {"kind": "meta", "v": [{"nodes": [0, 1], "edges": [[0, 1]]}, {"nodes": [1, 2], "edges": [[1, 2]]}]}}
+    g0 = graphops._one(beh)
+    b1 = copy.deepcopy(beh)
+    b1["nodes"][0]["key"], b1["nodes"][1]["key"] = 0, 1        # as if the shared atom kept its old place
+    b2 = copy.deepcopy(beh)
+    b2["out"]["v"][1]["nodes"] = [2]                           # as if the shared atom belonged to the first fragment only
+    _expect("graph bookkeeping: key of the shared atom after sorting corrupted", g0, graphops._one(b1), "X_GraphOps_Nodes", results)
+    _expect("graph bookkeeping: fragment of the shared atom dropped from annotate", g0, graphops._one(b2), "X_GraphOps_Returned", results)
     # ---- (b) vacuity: every action of every design model is taken at least once (TLC -coverage 1) ----
     import re
     from . import mc
@@ -136,6 +151,7 @@ def run(tier):
               ("SamplerMC", dict(CfgIds="IdsAll", TargetIdx=1, MaxSteps=3), "Spec"),
               ("ResolverAPI", dict(Inputs="{1, 4}", Levels="Lv", MaxObjs=2, MaxEvents=4, Ctors="CtorsAll"), "Spec"),
               ("Writer", dict(MaxN=3, Orders="Ord012"), "Spec"),
+              ("GraphOps", dict(Templates="TplQ", MaxOps=4, MaxNodes=6, MaxMerges=3), "Spec"),
               ("CGGraphMC", dict(MaxLen=5, NodeToks="Nodes2", SymToks="SymQuick", RingToks="Rings1", MultCounts="Mult2",
                                  MaxDepth=1, MaxOpen=1, EmitAll="FALSE"), "Spec"),
               ("FragTextMC", dict(MaxLen=3, AtomToks="AtomsQ", DescToks="DescQ", SymToks="SymsQ", RingToks="RingsQ",
